@@ -58,6 +58,7 @@ type caseData struct {
 	compiles string // true | false | na
 	typeErr  string
 	shape    sexp.Node
+	enums    sexp.Node
 	runs     []*runObs
 	stats    map[string]bool
 }
@@ -264,6 +265,7 @@ func prepare(i int, r *rng.R, thorough bool) *caseData {
 	}
 	c.compiles = "na"
 	c.shape = sexp.Sym("na")
+	c.enums = sexp.Sym("na")
 	if c.gen != "ok" {
 		return c
 	}
@@ -271,6 +273,7 @@ func prepare(i int, r *rng.R, thorough bool) *caseData {
 	c.compiles, c.typeErr = strconv.FormatBool(ok), msg
 	if f != nil {
 		c.shape = shapeOf(f, c.opName+"Data")
+		c.enums = enumConsts(f)
 	}
 	if !ok || c.opName == "" {
 		return c
@@ -404,6 +407,7 @@ func (c *caseData) sexp() sexp.Node {
 		sexp.T("gstats", stats...),
 		sexp.T("text", sexp.Str(c.text)),
 		sexp.T("schema", c.schema.sexp()),
+		sexp.T("deprecations", c.schema.deprecationsSexp()),
 		sexp.T("doc", c.doc.sexp()),
 		sexp.T("opname", sexp.Str(c.opName)),
 		sexp.T("impl",
@@ -412,6 +416,7 @@ func (c *caseData) sexp() sexp.Node {
 			sexp.T("compiles", sexp.Sym(c.compiles)),
 			sexp.T("type-error", sexp.Str(c.typeErr)),
 			sexp.T("shape", c.shape),
+			sexp.T("enums", c.enums),
 			sexp.T("runs", runs...)))
 }
 
